@@ -155,6 +155,8 @@ pub trait BoxCase {
     /// decode, re-encode, decode again: Ok(Some(true)) fixpoint, Ok(None) if the first decode or the re-encode fails
     fn lib_fixpoint(&self, bytes: &[u8]) -> Result<Option<bool>, String>;
     fn ref_bytes(&self, large: bool) -> Vec<u8>;
+    /// the reference bytes with each descendant box in turn written with the 64-bit size header: (path, bytes)
+    fn ref_bytes_descendant_large(&self) -> Vec<(String, Vec<u8>)>;
     /// mask over the whole box (header included): 0xff = compare, bits cleared = reserved positions
     fn mask(&self) -> Option<Vec<u8>>;
     /// the library cannot represent an encode-side value of this shape (decode-only comparison)
@@ -242,6 +244,36 @@ where
         let mut n = self.node.clone();
         n.large = large;
         serialize(&[n]).0
+    }
+    fn ref_bytes_descendant_large(&self) -> Vec<(String, Vec<u8>)> {
+        fn paths(n: &Node, cur: &mut Vec<usize>, out: &mut Vec<Vec<usize>>) {
+            if let Some(k) = n.children() {
+                for (i, c) in k.iter().enumerate() {
+                    cur.push(i);
+                    out.push(cur.clone());
+                    paths(c, cur, out);
+                    cur.pop();
+                }
+            }
+        }
+        let mut all = vec![];
+        paths(&self.node, &mut vec![], &mut all);
+        all.iter()
+            .map(|p| {
+                let mut root = self.node.clone();
+                let mut name = root.name();
+                {
+                    let mut n = &mut root;
+                    for &i in p.iter() {
+                        n = &mut n.children_mut().unwrap()[i];
+                        name.push('/');
+                        name.push_str(&n.name());
+                    }
+                    n.large = true;
+                }
+                (name, serialize(&[root]).0)
+            })
+            .collect()
     }
     fn mask(&self) -> Option<Vec<u8>> {
         self.payload_mask.as_ref().map(|m| {
